@@ -1,2 +1,360 @@
-//! C12 workload (under construction).
-fn main() {}
+//! C12 — gcd, lcm, extended gcd (Bezout identity modulo 2^BITS) and the
+//! Lehmer update matrices (full and prefix contracts) vs Euclid in BigUint.
+
+use num_bigint::{BigInt, BigUint};
+use num_traits::{One, Signed, Zero};
+use ruint::{algorithms::LehmerMatrix, Uint};
+use vmon::{au, big, gcdgen, gen, rng::Rng, uint, Arg, Mon};
+
+vmon::widths!(exec; 0, 1, 2, 3, 7, 8, 31, 32, 60, 63, 64, 65, 100, 127, 128, 129, 160, 192, 193,
+    250, 255, 256, 257, 320, 384, 512, 521, 768, 1024, 2048);
+
+/// Exact image of (a, b) under the matrix with its implicit sign pattern.
+fn apply_exact(mx: &LehmerMatrix, a: &BigUint, b: &BigUint) -> (BigInt, BigInt) {
+    let (a, b) = (BigInt::from(a.clone()), BigInt::from(b.clone()));
+    let (m0, m1, m2, m3) = (BigInt::from(mx.0), BigInt::from(mx.1), BigInt::from(mx.2), BigInt::from(mx.3));
+    if mx.4 {
+        (&m0 * &a - &m1 * &b, &m3 * &b - &m2 * &a)
+    } else {
+        (&m1 * &b - &m0 * &a, &m2 * &a - &m3 * &b)
+    }
+}
+
+/// The documented contract of a Lehmer update matrix for a >= b: identity, or
+/// (a, b) -> (c, d) with c >= d >= 0, d < b and gcd(c, d) = gcd(a, b).
+fn judge_matrix(m: &mut Mon, kind: &str, mx: &LehmerMatrix, a: &BigUint, b: &BigUint) -> Option<(BigUint, BigUint)> {
+    if *mx == LehmerMatrix::IDENTITY {
+        m.note_add("matrices_identity", 1);
+        return None;
+    }
+    m.note_add("matrices_nontrivial", 1);
+    let (c, d) = apply_exact(mx, a, b);
+    let desc = || format!("{mx:?} -> c={c} d={d}");
+    if d.is_negative() || c < d {
+        m.fail(&format!("{kind}.order"), "c >= d >= 0", &desc());
+        return None;
+    }
+    let (c, d) = (c.to_biguint().unwrap(), d.to_biguint().unwrap());
+    if !(d < *b) {
+        m.fail(&format!("{kind}.progress"), &format!("d < b = {}", big::bhex(b)), &desc());
+    }
+    if big::gcd(&c, &d) != big::gcd(a, b) {
+        m.fail(&format!("{kind}.gcd"), &format!("gcd(c,d) = gcd(a,b) = {}", big::bhex(&big::gcd(a, b))), &desc());
+    }
+    Some((c, d))
+}
+
+fn u128_of(v: &BigUint) -> u128 {
+    v.iter_u64_digits().enumerate().map(|(i, d)| u128::from(d) << (64 * i)).sum()
+}
+
+fn exec<const B: usize, const L: usize>(m: &mut Mon, op: &str, a: &[Arg]) {
+    match op {
+        "gcd" => {
+            let (x, y): (Uint<B, L>, Uint<B, L>) = (uint(a[0].u()), uint(a[1].u()));
+            let (ba, bb) = (big::big(a[0].u()), big::big(a[1].u()));
+            let g = big::gcd(&ba, &bb);
+            let eg = big::limbs(&g, L);
+            let two = BigUint::from(2u8);
+            m.nontrivial(ba >= two && bb >= two);
+            m.obs(|| format!("gcd={}", big::bhex(&g)));
+            if let Some(v) = m.must_in("gcd", || x.gcd(y)) {
+                m.eq_uint("gcd", &v, &eg);
+            }
+            if let Some(v) = m.must_in("algorithms::gcd", || ruint::algorithms::gcd(x, y)) {
+                m.eq_uint("algorithms::gcd", &v, &eg);
+            }
+            // lcm
+            let el: Option<BigUint> = if ba.is_zero() || bb.is_zero() {
+                Some(BigUint::zero())
+            } else {
+                let l = &ba * &bb / &g;
+                if big::fits(&l, B) {
+                    Some(l)
+                } else {
+                    None
+                }
+            };
+            if let Some(v) = m.must_in("lcm", || x.lcm(y)) {
+                match (&v, &el) {
+                    (Some(v), Some(l)) => {
+                        m.eq_uint("lcm.value", v, &big::limbs(l, L));
+                    }
+                    (None, None) => {}
+                    _ => m.fail("lcm.option", &format!("{:?}", el.as_ref().map(big::bhex)), &format!("{v:?}")),
+                }
+            }
+            // extended gcd: a*x - b*y = g if sign else b*y - a*x = g, modulo 2^BITS
+            if let Some((vg, vx, vy, sign)) = m.must_in("gcd_extended", || x.gcd_extended(y)) {
+                m.eq_uint("gcd_extended.gcd", &vg, &eg);
+                m.canonical(&vx);
+                m.canonical(&vy);
+                let md = big::p2(B);
+                let ax = (&ba * big::big(vx.as_limbs())) % &md;
+                let by = (&bb * big::big(vy.as_limbs())) % &md;
+                let lhs = if sign { (&md + &ax - &by) % &md } else { (&md + &by - &ax) % &md };
+                let want = &g % &md;
+                m.check(lhs == want, "gcd_extended.bezout", || format!("g = {}", big::bhex(&want)), || {
+                    format!("x={} y={} sign={sign} combination={}", big::hex(vx.as_limbs()), big::hex(vy.as_limbs()), big::bhex(&lhs))
+                });
+            }
+        }
+        "matrix" => {
+            // a >= b
+            let (x, y): (Uint<B, L>, Uint<B, L>) = (uint(a[0].u()), uint(a[1].u()));
+            let (ba, bb) = (big::big(a[0].u()), big::big(a[1].u()));
+            m.nontrivial(bb >= BigUint::from(2u8));
+            if let Some(mx) = m.must_in("LehmerMatrix::from", || LehmerMatrix::from(x, y)) {
+                m.obs(|| format!("{mx:?}"));
+                if let Some((c, d)) = judge_matrix(m, "matrix.from", &mx, &ba, &bb) {
+                    // apply() must produce exactly that image
+                    if let Some((vc, vd)) = m.must_in("LehmerMatrix::apply", || {
+                        let (mut p, mut q) = (x, y);
+                        mx.apply(&mut p, &mut q);
+                        (p, q)
+                    }) {
+                        m.eq_uint("matrix.apply.c", &vc, &big::limbs(&c, L));
+                        m.eq_uint("matrix.apply.d", &vd, &big::limbs(&d, L));
+                    }
+                }
+            }
+        }
+        _ => panic!("harness: unknown op {op}"),
+    }
+}
+
+/// Prefix-level entry points; the extension arithmetic is done at 320 bits.
+fn exec_prefix(m: &mut Mon, op: &str, a: &[Arg]) {
+    type W = Uint<320, 5>;
+    match op {
+        "from_u64" => {
+            let (r0, r1) = (a[0].n() as u64, a[1].n() as u64);
+            m.nontrivial(r1 >= 2);
+            if let Some(mx) = m.must_in("LehmerMatrix::from_u64", || LehmerMatrix::from_u64(r0, r1)) {
+                let (ba, bb) = (BigUint::from(r0), BigUint::from(r1));
+                if let Some((c, d)) = judge_matrix(m, "from_u64", &mx, &ba, &bb) {
+                    // full Euclid: the image is (gcd, 0)
+                    m.check(d.is_zero() && c == big::gcd(&ba, &bb), "from_u64.complete", || "(gcd, 0)".into(), || format!("({c}, {d})"));
+                    if let Some((vc, vd)) = m.must_in("apply_u128", || mx.apply_u128(u128::from(r0), u128::from(r1))) {
+                        m.eq("from_u64.apply_u128", &(BigUint::from(vc), BigUint::from(vd)), &(c, d));
+                    }
+                }
+            }
+        }
+        "prefix64" | "prefix128" => {
+            // args: prefix a0, prefix a1, extension bits k, tails x, y (< 2^k)
+            let (p0, p1) = (a[0].n(), a[1].n());
+            let k = a[2].us();
+            let (tx, ty) = (big::big(a[3].u()), big::big(a[4].u()));
+            m.nontrivial(p1 >= 2);
+            let mx = if op == "prefix64" {
+                m.must_in("LehmerMatrix::from_u64_prefix", || LehmerMatrix::from_u64_prefix(p0 as u64, p1 as u64))
+            } else {
+                m.must_in("LehmerMatrix::from_u128_prefix", || LehmerMatrix::from_u128_prefix(p0, p1))
+            };
+            let Some(mx) = mx else { return };
+            m.obs(|| format!("{mx:?} k={k}"));
+            // the matrix must be valid for the prefix itself and for every extension
+            let (b0, b1) = (BigUint::from(p0), BigUint::from(p1));
+            judge_matrix(m, &format!("{op}.self"), &mx, &b0, &b1);
+            let ea = (&b0 << k) + &tx;
+            let eb = (&b1 << k) + &ty;
+            if ea >= eb {
+                if let Some((c, d)) = judge_matrix(m, &format!("{op}.extension"), &mx, &ea, &eb) {
+                    let (ua, ub): (W, W) = (uint(&big::limbs(&ea, 5)), uint(&big::limbs(&eb, 5)));
+                    if let Some((vc, vd)) = m.must_in("LehmerMatrix::apply", || {
+                        let (mut p, mut q) = (ua, ub);
+                        mx.apply(&mut p, &mut q);
+                        (p, q)
+                    }) {
+                        m.eq_uint("prefix.apply.c", &vc, &big::limbs(&c, 5));
+                        m.eq_uint("prefix.apply.d", &vd, &big::limbs(&d, 5));
+                    }
+                    if ea.bits() <= 128 {
+                        if let Some((vc, vd)) = m.must_in("apply_u128", || mx.apply_u128(u128_of(&ea), u128_of(&eb))) {
+                            m.eq("prefix.apply_u128", &(BigUint::from(vc), BigUint::from(vd)), &(c, d));
+                        }
+                    }
+                }
+            }
+        }
+        _ => panic!("harness: unknown op {op}"),
+    }
+}
+
+fn dispatch_all(m: &mut Mon, bits: usize, op: &str, a: &[Arg]) {
+    match op {
+        "gcd" | "matrix" => dispatch(m, bits, op, a),
+        _ => exec_prefix(m, op, a),
+    }
+}
+
+fn both_orders(m: &mut Mon, bits: usize, a: &BigUint, b: &BigUint) {
+    let l = gen::nlimbs(bits);
+    let (la, lb) = (big::limbs(a, l), big::limbs(b, l));
+    m.case("gcd", bits, vec![au(&la), au(&lb)]);
+    m.case("gcd", bits, vec![au(&lb), au(&la)]);
+    if a >= b {
+        m.case("matrix", bits, vec![au(&la), au(&lb)]);
+    } else {
+        m.case("matrix", bits, vec![au(&lb), au(&la)]);
+    }
+}
+
+fn tails(r: &mut Rng, k: usize) -> Vec<u64> {
+    if k == 0 {
+        return vec![];
+    }
+    match r.below(4) {
+        0 => gen::zero(k),
+        1 => gen::max(k),
+        _ => gen::uniform(r, k),
+    }
+}
+
+fn workload_prefix(m: &mut Mon) {
+    let mut r = m.stream("c12.prefix", 0);
+    for i in 0..m.iters(40_000) {
+        if i % 512 == 0 && m.time_up() {
+            break;
+        }
+        // prefix pair from a known quotient sequence, normalised so that a0 has its top bit set
+        let pat = r.below(10);
+        let (ga, gb, _) = gcdgen::pair(&mut r, 64, pat);
+        let mut a0 = u128_of(&ga) as u64;
+        let mut a1 = u128_of(&gb) as u64;
+        match r.below(6) {
+            0 => {
+                a0 = gen::alpha_limb(&mut r);
+                a1 = gen::alpha_limb(&mut r);
+            }
+            1 => {
+                a1 = a0.wrapping_sub(r.below(3) as u64);
+            }
+            2 => a1 >>= r.below(40),
+            _ => {}
+        }
+        if a0 == 0 {
+            a0 = 1;
+        }
+        let s = a0.leading_zeros();
+        a0 <<= s;
+        a1 = (a1 << s).min(a0);
+        if a1 > a0 {
+            std::mem::swap(&mut a0, &mut a1);
+        }
+        m.case("from_u64", 64, vec![Arg::N(a0.into()), Arg::N(a1.into())]);
+        let (u0, u1) = (gen::alpha_limb(&mut r), gen::alpha_limb(&mut r));
+        m.case("from_u64", 64, vec![Arg::N(u0.max(u1).into()), Arg::N(u0.min(u1).into())]);
+        let k = match r.below(5) {
+            0 => 0,
+            1 => 64,
+            2 => 192,
+            _ => r.range(0, 192),
+        };
+        let (tx, ty) = (tails(&mut r, k), tails(&mut r, k));
+        m.case("prefix64", 320, vec![Arg::N(a0.into()), Arg::N(a1.into()), Arg::N(k as u128), au(&tx), au(&ty)]);
+        // 128-bit prefix: same high words with hostile low words
+        let r0 = (u128::from(a0 >> r.below(64)) << 64) | u128::from(gen::alpha_limb(&mut r));
+        let r1 = ((u128::from(a1) << 64) | u128::from(gen::alpha_limb(&mut r))) >> (128 - (128 - r0.leading_zeros())).min(127);
+        let (r0, r1) = if r0 >= r1 { (r0, r1) } else { (r1, r0) };
+        if r0 > 0 {
+            let k = r.range(0, 128);
+            let (tx, ty) = (tails(&mut r, k), tails(&mut r, k));
+            m.case("prefix128", 320, vec![Arg::N(r0), Arg::N(r1), Arg::N(k as u128), au(&tx), au(&ty)]);
+        }
+    }
+    for (a0, a1) in [(1u64 << 63, 0u64), (1 << 63, 1), (u64::MAX, u64::MAX), (u64::MAX, u64::MAX - 1), (1 << 63, (1 << 63) - 1),
+                     (u64::MAX, 1 << 32), (u64::MAX, (1 << 32) - 1), (1 << 63, 1 << 32), (u64::MAX, 1 << 63)] {
+        for k in [0usize, 1, 64, 128, 192] {
+            m.case("prefix64", 320, vec![Arg::N(a0.into()), Arg::N(a1.into()), Arg::N(k as u128), au(&gen::max(k)), au(&gen::zero(k))]);
+            m.case("prefix64", 320, vec![Arg::N(a0.into()), Arg::N(a1.into()), Arg::N(k as u128), au(&gen::zero(k)), au(&gen::zero(k))]);
+        }
+        m.case("from_u64", 64, vec![Arg::N(a0.into()), Arg::N(a1.into())]);
+    }
+}
+
+fn workload(m: &mut Mon, bits: usize) {
+    if bits <= 4 {
+        for a in 0..(1u64 << bits) {
+            for b in 0..(1u64 << bits) {
+                if !m.keep() {
+                    continue;
+                }
+                both_orders(m, bits, &BigUint::from(a), &BigUint::from(b));
+            }
+        }
+        if !m.is_light() {
+            m.mark_exhaustive(format!("all (a, b) pairs at BITS={bits}"));
+        }
+    }
+    if bits == 0 {
+        return;
+    }
+    let bd = gen::boundary(bits);
+    let mut r = m.stream("c12.directed", bits);
+    for a in &bd {
+        if !m.keep() {
+            continue;
+        }
+        let ba = big::big(a);
+        let mut partners = vec![ba.clone(), BigUint::zero(), BigUint::one(), big::big(&gen::max(bits))];
+        if !ba.is_zero() {
+            partners.push(&ba - 1u8);
+        }
+        if big::fits(&(&ba + 1u8), bits) {
+            partners.push(&ba + 1u8);
+        }
+        for _ in 0..4 {
+            partners.push(big::big(&r.pick(&bd)[..]));
+        }
+        for b in &partners {
+            both_orders(m, bits, &ba, b);
+        }
+    }
+    // quotient-sequence pairs, every pattern
+    let mut r = m.stream("c12.sequences", bits);
+    let reps = m.iters(if bits <= 256 { 300 } else if bits <= 1024 { 80 } else { 20 });
+    for pat in 0..10 {
+        for i in 0..reps {
+            if i % 32 == 0 && m.time_up() {
+                return;
+            }
+            if !m.keep() {
+                continue;
+            }
+            let (a, b, _) = gcdgen::pair(&mut r, bits, pat);
+            both_orders(m, bits, &a, &b);
+            // shared leading 64 / 128 bits: b = a - small
+            if i % 4 == 0 && !a.is_zero() {
+                let d = BigUint::from(gen::alpha_limb(&mut r)) % &a;
+                both_orders(m, bits, &a, &(&a - d));
+            }
+        }
+    }
+    // hostile random
+    let mut r = m.stream("c12.random", bits);
+    for i in 0..m.iters(if bits <= 256 { 1500 } else { 300 }) {
+        if i % 64 == 0 && m.time_up() {
+            return;
+        }
+        let (a, b) = (big::big(&gen::hostile(&mut r, bits)), big::big(&gen::hostile(&mut r, bits)));
+        both_orders(m, bits, &a, &b);
+    }
+}
+
+fn main() {
+    let mut m = Mon::new("C12", dispatch_all);
+    m.use_hooks = true;
+    if !m.replay_if_requested() {
+        if m.width_enabled(320) {
+            workload_prefix(&mut m);
+        }
+        for &bits in WIDTHS {
+            if m.width_enabled(bits) {
+                workload(&mut m, bits);
+            }
+        }
+    }
+    m.finish();
+}
